@@ -43,6 +43,16 @@ Section C08.
       vlookup id (c_list r_filter s' (ro_mask ro) (ro_include ro)).
   Proof. intros. eapply filtered_fold_is_filtered_list; eauto. Qed.
 
+  (* the same law for ANY chain of events that each describe one transition of the contents as the
+     subscriber knows them (old = its value before, new = its value after, nothing else changes):
+     this is what lossy delivery produces — C09_fold_preserved shows every merged event is valid
+     against the receiver's own view — so the include-filtered fold tracks the filtered contents
+     with backpressure off as well *)
+  Theorem C08_filtered_fold_any_described_chain : forall (ro : ropts M rmask) evs l l' view,
+    chain l evs l' -> view_inv r_filter ro view l ->
+    view_inv r_filter ro (fold_left (@apply_change M) (c_forward_gen r_filter None false false ro evs) view) l'.
+  Proof. intros. eapply chain_keeps_view; eauto. Qed.
+
   (* the seed is the filtered list *)
   Theorem C08_seed_is_filtered_list : forall (ro : ropts M rmask) (s : cstate M),
     map (@cc_id M) (seeds r_filter ro (included ro (c_items s))) =
@@ -56,6 +66,7 @@ End C08.
 Print Assumptions C08_decision_table.
 Print Assumptions C08_filtered_fold_is_filtered_list.
 Print Assumptions C08_seed_is_filtered_list.
+Print Assumptions C08_filtered_fold_any_described_chain.
 
 (* the pinned commit's table: an update between two matching versions was dropped, and with a
    predicate true on absent values a delete of a non-matching item became an ADD of nothing *)
